@@ -295,9 +295,9 @@ inline void Ctx::fail(const KV &kv, const std::string &msg) {
 struct XBuf {
     uint8_t *base, *p; size_t n, total; bool pooled; unsigned slot_idx = 0;
     enum { SLOT = 8192, NSLOT = 24, PAD = 64 };
-    static uint8_t *&pool() { static uint8_t *p_ = nullptr; return p_; }
-    static bool *used() { static bool u[NSLOT]; return u; }
-    static unsigned &next() { static unsigned n_ = 0; return n_; }
+    static uint8_t *&pool() { static thread_local uint8_t *p_ = nullptr; return p_; }
+    static bool *used() { static thread_local bool u[NSLOT]; return u; }
+    static unsigned &next() { static thread_local unsigned n_ = 0; return n_; }
     XBuf(size_t n_, size_t align = 0, int fill = 0xa5) : n(n_) {
         if (!pool()) { pool() = (uint8_t *) aligned_alloc(64, (size_t) SLOT * NSLOT); memset(pool(), 0, (size_t) SLOT * NSLOT); }
         total = n + 2 * PAD + 64;
